@@ -46,6 +46,9 @@ pub enum Case {
         /// what governance did through sudo before the migration (see w_migrate::setup_gov)
         #[serde(default)]
         gov: u8,
+        /// state of the optional instantiate fields (see w_migrate::setup_opt)
+        #[serde(default)]
+        opt: u8,
     },
     /// a factory instantiated with `init`, stored cw2 (name, version), migrated with an
     /// optional parameter message; the Params answer is compared field by field
@@ -1000,7 +1003,7 @@ fn harvested_versions() -> Vec<String> {
 }
 
 fn mig(contract: Contract, stage: u8, name: &str, version: &str) -> Case {
-    Case::Mig { contract, stage, name: name.to_string(), version: version.to_string(), msg: MsgKind::Nothing, legacy_minter: false, strip_flags: false, clock: None, gov: 0 }
+    Case::Mig { contract, stage, name: name.to_string(), version: version.to_string(), msg: MsgKind::Nothing, legacy_minter: false, strip_flags: false, clock: None, gov: 0, opt: 0 }
 }
 
 fn gen_cases(a: &Args, code: &str) -> Vec<Case> {
@@ -1070,7 +1073,7 @@ fn gen_cases(a: &Args, code: &str) -> Vec<Case> {
                         continue;
                     }
                     for (name, ver) in [(own, "3.15.0"), (own, code), (own, "0.1.0"), (own, "3.17.0"), (own, "x"), ("crates.io:sg-minter", "3.15.0")] {
-                        cases.push(Case::Mig { contract: c, stage, name: name.to_string(), version: ver.to_string(), msg: k, legacy_minter: false, strip_flags: false, clock: None, gov: 0 });
+                        cases.push(Case::Mig { contract: c, stage, name: name.to_string(), version: ver.to_string(), msg: k, legacy_minter: false, strip_flags: false, clock: None, gov: 0, opt: 0 });
                     }
                 }
             }
@@ -1084,7 +1087,7 @@ fn gen_cases(a: &Args, code: &str) -> Vec<Case> {
                             continue;
                         }
                         let mut push = |name: &str, ver: &str, msg: MsgKind| {
-                            cases.push(Case::Mig { contract: c, stage: gstage, name: name.to_string(), version: ver.to_string(), msg, legacy_minter: false, strip_flags: false, clock: None, gov });
+                            cases.push(Case::Mig { contract: c, stage: gstage, name: name.to_string(), version: ver.to_string(), msg, legacy_minter: false, strip_flags: false, clock: None, gov, opt: 0 });
                         };
                         // every version literal of the migrate sources (+-1) for every triple; the
                         // whole boundary list and a grid sample for "blocked" and "all flags"
@@ -1110,12 +1113,57 @@ fn gen_cases(a: &Args, code: &str) -> Vec<Case> {
                     }
                 }
             }
+            // optional instantiate fields in the other state (absent <-> present) and empty:
+            // every may_load / Option item exists in both states before a migration
+            if si == 0 {
+                for opt in [1u8, 2] {
+                    // the "empty" state differs from "the other state" only where a list or a
+                    // second optional field exists
+                    let has_empty = c.kind() == Kind::Factory
+                        || matches!(c, Contract::WhitelistMerkletree | Contract::TieredWhitelistMerkletree | Contract::OpenEditionMinter | Contract::OpenEditionMinterWlFlex | Contract::OpenEditionMinterMerkleWl);
+                    if opt == 2 && !has_empty {
+                        continue;
+                    }
+                    for ostage in [1u8, 0, 2] {
+                        for name in documented_names(c) {
+                            for ver in &bounds {
+                                if ostage == 1 || harvested.contains(ver) {
+                                    for legacy in [false, true] {
+                                        if legacy && c != Contract::Sg721Updatable {
+                                            continue;
+                                        }
+                                        cases.push(Case::Mig { contract: c, stage: ostage, name: name.to_string(), version: ver.clone(), msg: MsgKind::Nothing, legacy_minter: legacy, strip_flags: false, clock: None, gov: 0, opt });
+                                    }
+                                }
+                            }
+                        }
+                        for (i, ver) in grid.iter().enumerate() {
+                            if ostage == 1 && (i + opt as usize) % 9 == 0 {
+                                cases.push(Case::Mig { contract: c, stage: ostage, name: own.to_string(), version: ver.clone(), msg: MsgKind::Nothing, legacy_minter: c == Contract::Sg721Updatable, strip_flags: false, clock: None, gov: 0, opt });
+                            }
+                        }
+                        for (name, ver) in [("crates.io:sg-base-minter", "2.4.0"), (own, "3.16"), (own, "99.0.0")] {
+                            cases.push(Case::Mig { contract: c, stage: ostage, name: name.to_string(), version: ver.to_string(), msg: MsgKind::Nothing, legacy_minter: false, strip_flags: false, clock: None, gov: 0, opt });
+                        }
+                        if c.kind() == Kind::Factory {
+                            for ver in ["2.4.0", "3.15.0", code] {
+                                cases.push(Case::Mig { contract: c, stage: ostage, name: own.to_string(), version: ver.to_string(), msg: MsgKind::Valid, legacy_minter: false, strip_flags: false, clock: None, gov: 0, opt });
+                            }
+                        }
+                        if is_minter(c) && ostage == 1 {
+                            for ver in harvested.iter() {
+                                cases.push(Case::Mig { contract: c, stage: ostage, name: own.to_string(), version: ver.clone(), msg: MsgKind::Nothing, legacy_minter: false, strip_flags: false, clock: None, gov: 6, opt });
+                            }
+                        }
+                    }
+                }
+            }
             // block times around the 12 h / 24 h subtractions
             if c.kind() == Kind::Vending || c == Contract::Sg721Updatable {
                 let h = 3600 * 1_000_000_000u64;
                 for t in [12 * h - 1, 12 * h, 12 * h + 1, 24 * h - 1, 24 * h, 24 * h + 1, 0] {
                     for ver in ["3.8.9", "3.9.0", "3.0.10", "3.1.0", "3.15.0"] {
-                        cases.push(Case::Mig { contract: c, stage, name: own.to_string(), version: ver.to_string(), msg: MsgKind::Nothing, legacy_minter: false, strip_flags: false, clock: Some(t), gov: 0 });
+                        cases.push(Case::Mig { contract: c, stage, name: own.to_string(), version: ver.to_string(), msg: MsgKind::Nothing, legacy_minter: false, strip_flags: false, clock: Some(t), gov: 0, opt: 0 });
                     }
                 }
             }
@@ -1125,10 +1173,10 @@ fn gen_cases(a: &Args, code: &str) -> Vec<Case> {
                     for (i, ver) in grid.iter().chain(bounds.iter()).enumerate() {
                         if si == 0 || i % 7 == si {
                             for strip in [false, true] {
-                                cases.push(Case::Mig { contract: c, stage, name: name.to_string(), version: ver.clone(), msg: MsgKind::Nothing, legacy_minter: true, strip_flags: strip, clock: None, gov: 0 });
+                                cases.push(Case::Mig { contract: c, stage, name: name.to_string(), version: ver.clone(), msg: MsgKind::Nothing, legacy_minter: true, strip_flags: strip, clock: None, gov: 0, opt: 0 });
                             }
                             if i % 5 == 0 {
-                                cases.push(Case::Mig { contract: c, stage, name: name.to_string(), version: ver.clone(), msg: MsgKind::Nothing, legacy_minter: false, strip_flags: true, clock: None, gov: 0 });
+                                cases.push(Case::Mig { contract: c, stage, name: name.to_string(), version: ver.clone(), msg: MsgKind::Nothing, legacy_minter: false, strip_flags: true, clock: None, gov: 0, opt: 0 });
                             }
                         }
                     }
@@ -1159,8 +1207,9 @@ fn gen_cases(a: &Args, code: &str) -> Vec<Case> {
             MsgKind::Nothing
         };
         let upd = c == Contract::Sg721Updatable;
+        let opt = rng.below(3) as u8;
         let gov = if is_minter(c) { rng.below(9) as u8 } else if c.kind() == Kind::Factory { rng.below(2) as u8 } else { 0 };
-        cases.push(Case::Mig { contract: c, stage, name, version, msg, legacy_minter: upd && rng.chance(1, 2), strip_flags: upd && rng.chance(1, 3), clock: None, gov });
+        cases.push(Case::Mig { contract: c, stage, name, version, msg, legacy_minter: upd && rng.chance(1, 2), strip_flags: upd && rng.chance(1, 3), clock: None, gov, opt });
     }
     cases
 }
@@ -1168,14 +1217,14 @@ fn gen_cases(a: &Args, code: &str) -> Vec<Case> {
 /// developer aid: C20_DEBUG=1 prints which setups / queries do not work
 fn debug_setups() {
     for c in ALL {
-        for stage in 0..3u8 {
-            match setup(c, stage) {
-                Err(e) => println!("SETUP FAIL {:?} stage {}: {}", c, stage, e),
+        for (stage, opt) in [(0u8, 0u8), (1, 0), (2, 0), (0, 1), (1, 1), (2, 1), (0, 2), (1, 2), (2, 2)] {
+            match setup_opt(c, stage, opt) {
+                Err(e) => println!("SETUP FAIL {:?} stage {} opt {}: {}", c, stage, opt, e),
                 Ok(s) => {
                     let qs = queries(c);
                     let snap = snapshot(&s.app, &s.addr, &qs);
                     let bad: Vec<String> = qs.iter().zip(snap.answers.iter()).filter(|(_, a)| a.is_err()).map(|((q, _), _)| q.to_string()).collect();
-                    println!("{:?} stage {}: addr {} admin {} keys {} queries {} failing {:?}", c, stage, s.addr, s.admin, snap.raw.len(), qs.len(), bad);
+                    println!("{:?} stage {} opt {}: addr {} admin {} keys {} queries {} failing {:?}", c, stage, opt, s.addr, s.admin, snap.raw.len(), qs.len(), bad);
                 }
             }
         }
@@ -1201,16 +1250,16 @@ pub fn run(a: &Args) {
     } else {
         gen_cases(a, &code)
     };
-    let mut worlds: BTreeMap<(Contract, u8, u8), World> = BTreeMap::new();
+    let mut worlds: BTreeMap<(Contract, u8, u8, u8), World> = BTreeMap::new();
     let mut coq_cases = Vec::with_capacity(cases.len());
     let mut distinct = BTreeSet::new();
     let mut nviol = 0;
     let mut seen_keys = BTreeSet::new();
     for (i, case) in cases.iter().enumerate() {
         let o = match case {
-            Case::Mig { contract, stage, gov, .. } => {
-                let w = worlds.entry((*contract, *stage, *gov)).or_insert_with(|| {
-                    let setup = setup_gov(*contract, *stage, *gov).unwrap_or_else(|e| panic!("cannot set up {:?} stage {} gov {}: {}", contract, stage, gov, e));
+            Case::Mig { contract, stage, gov, opt, .. } => {
+                let w = worlds.entry((*contract, *stage, *gov, *opt)).or_insert_with(|| {
+                    let setup = setup_gov_opt(*contract, *stage, *gov, *opt).unwrap_or_else(|e| panic!("cannot set up {:?} stage {} gov {} opt {}: {}", contract, stage, gov, opt, e));
                     let raw0 = raw_storage(&setup.app, &setup.addr);
                     let time0 = setup.app.block_info();
                     World { raw0, time0, qs: queries(*contract), ids: Ids::with_fixed(&[], 10), setup }
@@ -1219,6 +1268,9 @@ pub fn run(a: &Args) {
                 rep.bump(&format!("{:?}:migrate:{}", contract, if o.ok { "ok" } else { "err" }));
                 if *gov != 0 {
                     rep.bump(&format!("{:?}:after-governance-sudo", contract));
+                }
+                if *opt != 0 {
+                    rep.bump(&format!("{:?}:optional-fields-state-{}", contract, opt));
                 }
                 o
             }
